@@ -30,7 +30,8 @@ def ref_key(op: Dict[str, Any], handle_contract: Dict[str, str]) -> Optional[Tup
     if kind == "cli":
         return ("cli", op["c"], tuple(op["argv"]), json.dumps([op.get("files", []), op.get("contracts", [])], sort_keys=True))
     if kind == "group":
-        return ("group", op["canon"])
+        # one reference per detector: the canonical config analysed by that detector alone
+        return ("group", op["canon"], op["dets"][0] if op.get("dets") else "")
     return None
 
 
@@ -87,6 +88,7 @@ class RefStore:
             g.pop("fault", None)
             g["yaml"] = g["canon_yaml"]
             g["s1"] = "id"
+            g["dets"] = [key[2]] if key[2] else []
             ops = [g]
             tgt = 0
         else:
@@ -108,6 +110,8 @@ class RefStore:
                 self.need(("count", op["c"]))
             if op["op"] == "group":
                 self.group_ops[op["canon"]] = op
+                for d in op.get("dets", []):
+                    self.need(("group", op["canon"], d))
             self.need(ref_key(op, hm))
 
     # ------------------------------------------------------------------ compute
